@@ -247,3 +247,25 @@ Definition all_literals (pt : Z) : list str :=
   match assoc_Z pt clause_tables with Some tab => map snd tab | None => [] end
   ++ [in_open; in_sep; in_close; or_empty; or_open; or_sep; or_close; kw_and; kw_where;
       snd (fst empty_in); snd empty_in].
+
+(* ------------------------------------------------------------------ *)
+(* histories: a list object handed to a condition object may be changed by the
+   caller afterwards.  [g] rewrites the contents of every list / tuple / set
+   value (its kind stays); scalars are untouched. *)
+Definition mapseq_val (g : list scalar -> list scalar) (v : pyval) : pyval :=
+  match v with VS a => VS a | VSeq k l => VSeq k (g l) end.
+Definition mapseq_kw (g : list scalar -> list scalar) (kw : list (str * pyval)) : list (str * pyval) :=
+  map (fun e => (fst e, mapseq_val g (snd e))) kw.
+Fixpoint mapseq_arg (g : list scalar -> list scalar) (a : arg) : arg :=
+  match a with
+  | ATup3 f op v => ATup3 f op (mapseq_val g v)
+  | ATup2 f v => ATup2 f (mapseq_val g v)
+  | AOr l kw => AOr (map (mapseq_arg g) l) (mapseq_kw g kw)
+  | _ => a
+  end.
+Fixpoint mapseq_cond (g : list scalar -> list scalar) (c : cond) : cond :=
+  match c with
+  | CStatic t => CStatic t
+  | CField f op v => CField f op (mapseq_val g v)
+  | COr l => COr (map (mapseq_cond g) l)
+  end.
